@@ -101,6 +101,14 @@ CHECKS["C12"] = dict(
          "Spacing: every cluster partition of 6 short texts x 1-2 glyphs per cluster x both progressions and axes x 6 spacing values x start/end flags through the real AddWordSpacing/AddLetterSpacing, compared with the eligibility rules written in TLA+.",
     note="Trusts TLC and the harness's logging of glyph fields. Integer 26.6 arithmetic only. Fonts x texts sampled by seed.")
 
+CHECKS["C07"] = dict(
+    engine="itemize",
+    technique="TLA+ property spec of itemisation (Itemize.tla: Partition, Untouched, BidiUniform, ScriptUniform, OrientUniform, FaceUniform, LangCompatible, HistoryFree) validated by TLC on recorded Split calls (exhaustive short strings over a class alphabet plus random longer ones) on a re-used and a fresh Segmenter",
+    category="model_checking", design_ref="DESIGN.md §5 C07",
+    text="Each Split call is one event carrying the input, the output runs and per-rune facts (bidi parity from x/text, script, orientation under the run's script, font-map answer under the run's script); TLC evaluates all eight predicates. "
+         "Exhaustive over strings up to length L of a 12-class alphabet; the re-used Segmenter accumulates the whole shard as history, so HistoryFree compares against a fresh one at every call.",
+    note="Trusts x/text bidi as the level fact, the library's exported lookups for script/orientation, TLC. Bracket pairing is not judged separately. Long strings sampled by seed.")
+
 NOT_YET = {}
 NA = {
  "C05": "defined as agreement with the reference C HarfBuzz; no reference shaper (uharfbuzz/hb-shape) exists in this sealed sandbox and re-specifying HarfBuzz in TLA+ would make the spec the reference (DESIGN §6)",
